@@ -5,10 +5,10 @@ import lib, storelib as S, arithlib as A
 from lib import Result, model_call, run_sharded, e_fmt, Reader, RMODES, OMODES
 
 RULE = ('all code pairs for n_word<=4 (quick) / <=6 (thorough) with every signedness combination and n_frac in 0..n_word; boundary and random codes for n_word in {16,31,32,33,63,64,65,100,128}; '
-        'x scalar, and x holding arrays of 1..4 codes (element-wise); y is a scalar fixed-point object or (60% of the array cases with an object y) an array object of the same shape, or x a scalar object against an array y; y is otherwise a scalar fixed-point object of the same word length (either signedness, any n_frac) or an integer mask on either side (also negative masks and masks wider than the word); operators ~ & | ^, the laws ~~x == x, '
+        'x scalar, and x holding arrays of 1..4 codes (element-wise); y is a scalar fixed-point object or (60% of the array cases with an object y) an array object of the same shape, or x a scalar object against an array y, or (stratum S) two array objects of different shapes that broadcast against each other (a column against a row, a vector against a column; sizes 1..3, equal sizes included): the result is the table of every pair; y is otherwise a scalar fixed-point object of the same word length (either signedness, any n_frac) or an integer mask on either side (also negative masks and masks wider than the word); operators ~ & | ^, the laws ~~x == x, '
         '~x == -x - LSB (signed), De Morgan; malformed stream: operands of different word lengths must raise. The expected pattern is computed with Python integer bit operations on (code mod 2^n_word); compared also with the model. '
         'Non-trivial = both patterns are neither 0 nor all-ones; distinct by full input.')
-ASSUMPTIONS = ['x and y may hold arrays of codes (the same shape, or one of them a scalar object); an integer mask is a single integer']
+ASSUMPTIONS = ['x and y may hold arrays of codes (the same shape, shapes that broadcast against each other, or one of them a scalar object); an integer mask is a single integer']
 WIDE = [16, 31, 32, 33, 63, 64, 65, 100, 128]
 
 def code_of_pattern(s, n, u):
@@ -150,6 +150,43 @@ def gen_y(rng, n, small_codes=None):
     # integer mask, possibly negative or wider than the word
     return None, rng.choice([0, 1, -1, (1 << n) - 1, 1 << (n - 1), rng.getrandbits(n), -rng.getrandbits(n), rng.getrandbits(n + 8)])
 
+def run_bcast_cases(cases, res, stratum):
+    """two array operands of DIFFERENT shapes that NumPy broadcasts against each other (a column against a row, a vector against a column):
+    the result is the table of every pair, whatever the sizes (equal sizes included)"""
+    fx = lib.impl(); import numpy as np
+    for c in cases:
+        s, n, nf = c['x']; sy, ny, nfy = c['y']; cxs, cys = c['bx'], c['by']
+        dt = object if n >= 64 else None
+        try:
+            x = fx.Fxp(np.array(cxs, dtype=dt).reshape(c['shx']), s, n, nf, raw=True); y = fx.Fxp(np.array(cys, dtype=dt).reshape(c['shy']), sy, ny, nfy, raw=True)
+            obs = {}
+            for k, r in (('&', x & y), ('|', x | y), ('^', x ^ y)):
+                obs[k] = (A.fmt_of(r), tuple(np.asarray(r.val).shape), lib.codes_of(r))
+        except Exception as e:
+            res.fail(c, 'C13: a bitwise operator on two arrays of broadcastable shapes raised %s' % lib.exc_name(e), got=str(e)[:200]); continue
+        res.count(stratum, key=repr(c), nontrivial=True, n=3 * len(cxs) * len(cys)); res.sample(c)
+        mask = (1 << n) - 1
+        bx = np.broadcast_to(np.array(cxs, dtype=object).reshape(c['shx']), np.broadcast_shapes(tuple(c['shx']), tuple(c['shy'])))
+        by = np.broadcast_to(np.array(cys, dtype=object).reshape(c['shy']), bx.shape)
+        px = [int(v) & mask for v in bx.reshape(-1).tolist()]; py = [int(v) & mask for v in by.reshape(-1).tolist()]
+        def back(u): return u - (1 << n) if (s and u >> (n - 1)) else u
+        for k, f in (('&', lambda a, b: a & b), ('|', lambda a, b: a | b), ('^', lambda a, b: a ^ b)):
+            want = [back(f(a, b)) for a, b in zip(px, py)]
+            fz, shp, got = obs[k]
+            if shp != tuple(bx.shape) or got != want or fz != (s, n, nf):
+                res.fail(c, 'C13: x %s y on arrays of shapes %s and %s is not the table of the bit patterns of every pair' % (k, tuple(c['shx']), tuple(c['shy'])), expected=(tuple(bx.shape), want), got=(shp, got, fz)); break
+
+def bcast_cases(rng, count):
+    cases = []
+    for _ in range(count):
+        n = rng.choice(WIDE + [2, 4, 8]); s = rng.random() < 0.5; sy = rng.random() < 0.5; lo, hi = S.fmt_bounds(s, n); ly, hy = S.fmt_bounds(sy, n)
+        N = rng.choice([1, 2, 2, 3]); M = rng.choice([N, N, 1, 2, 3])
+        shx, shy = rng.choice([((N, 1), (1, M)), ((N, 1), (M,)), ((N,), (M, 1)), ((1, N), (M, 1))])
+        cases.append({'x': [s, n, rng.choice([0, 1, n // 2])], 'y': [sy, n, rng.choice([0, 1, n // 2])], 'shx': list(shx), 'shy': list(shy),
+                      'bx': [rng.choice([lo, hi, 0, -1 if s else 1, rng.randint(lo, hi), rng.randint(lo, hi)]) for _k in range(N)],
+                      'by': [rng.choice([ly, hy, 0, -1 if sy else 1, rng.randint(ly, hy), rng.randint(ly, hy)]) for _k in range(M)]})
+    return cases
+
 def shard(shard, nshards, rng, tier, extra):
     res = Result()
     nmax = 4 if tier == 'quick' else 6
@@ -192,6 +229,7 @@ def shard(shard, nshards, rng, tier, extra):
                 cases[-1]['cxs'] = [rng.choice([lo, hi, 0, -1 if s else 1, rng.randint(lo, hi), rng.randint(lo, hi)]) for _k in range(k)]
                 cases[-1]['cys'] = [rng.choice([ly, hy, 0, rng.randint(ly, hy), rng.randint(ly, hy)]) for _k in range(k)]
     run_array_cases(cases, res, 'R:arrays-of-codes')
+    run_bcast_cases(bcast_cases(rng, (300 if tier == 'quick' else 8000) // nshards), res, 'S:broadcast-shapes')
     cases = []
     for _ in range((300 if tier == 'quick' else 5000) // nshards):
         n = rng.choice([3, 8, 16, 32, 64, 65]); ny = n + rng.choice([-1, 1, 8, -2])
@@ -206,6 +244,7 @@ def run(seed, tier):
 def classify(fl): return None
 def replay(payload):
     res = Result(); c = payload['case']
-    if 'cxs' in c: run_array_cases([c], res, 'replay')
+    if 'bx' in c: run_bcast_cases([c], res, 'replay')
+    elif 'cxs' in c: run_array_cases([c], res, 'replay')
     else: run_cases([c], res, 'replay')
     return {'holds': not res.failures, 'failures': res.failures}
